@@ -11,6 +11,8 @@
 //   - the same observations go to Coq case files where the model (Agg.v: merge over the actual
 //     blocks; group bucket as coded; Bucket.v: find_bucket) must reproduce them;
 //   - FindTimeRangeBucket is also driven directly on thousands of (start, end, step, ts);
+//   - time bucketing with an alignment origin (`bin span= aligntime=`, every span unit, events on both
+//     sides of the origin; `timechart span=<n><unit>`; direct calls of performBinWithSpanTime): bin.go;
 //   - known-defect inputs are generated in separate streams, one per class (known/C04.json).
 package main
 
@@ -161,6 +163,7 @@ type Dataset struct {
 	Start   uint64   `json:"start"`
 	End     uint64   `json:"end"`
 	SpanS   int      `json:"span_s"`
+	Place   string   `json:"place,omitempty"` // stream bin_origin: where the align time lies relative to the events
 	Queries []Query  `json:"queries"`
 }
 
@@ -170,21 +173,24 @@ type Dataset struct {
 //	group   : stats ... by By (g | k | nosuch | g,k)
 //	tc      : timechart span count, sum(d)
 //	tcby    : timechart span count by k
-//	bin     : bin span timestamp | stats count by timestamp
+//	binal   : bin span=<n><unit> [aligntime=T] timestamp [as x] | stats count, sum(d) by timestamp|x   (bin.go)
 //	perc    : stats perc50(d), perc90(d)
 type Query struct {
-	Kind    string `json:"kind"`
-	Text    string `json:"text"`
-	Field   string `json:"field,omitempty"`
-	VL      bool   `json:"vl,omitempty"`
-	TS      bool   `json:"ts,omitempty"`
-	Filter  int    `json:"filter,omitempty"`
-	FilterC string `json:"filter_c,omitempty"` // c = "<value>"
-	Cut     string `json:"cut,omitempty"`      // how the time range cuts through the blocks ("" = range encloses all events)
-	By      string `json:"by,omitempty"`
-	Start   uint64 `json:"start"`
-	End     uint64 `json:"end"`
-	Expect  string `json:"expect,omitempty"` // known class this query is expected to hit ("" = none)
+	Kind    string  `json:"kind"`
+	Text    string  `json:"text"`
+	Field   string  `json:"field,omitempty"`
+	VL      bool    `json:"vl,omitempty"`
+	TS      bool    `json:"ts,omitempty"`
+	Filter  int     `json:"filter,omitempty"`
+	FilterC string  `json:"filter_c,omitempty"` // c = "<value>"
+	Cut     string  `json:"cut,omitempty"`      // how the time range cuts through the blocks ("" = range encloses all events)
+	By      string  `json:"by,omitempty"`
+	Start   uint64  `json:"start"`
+	End     uint64  `json:"end"`
+	Expect  string  `json:"expect,omitempty"` // known class this query is expected to hit ("" = none)
+	SpanN   int     `json:"span_n,omitempty"` // span=<SpanN><SpanU> of this query (0: the dataset's SpanS seconds)
+	SpanU   string  `json:"span_u,omitempty"`
+	Align   *uint64 `json:"align,omitempty"` // aligntime of a bin query (nil: none)
 }
 
 // ---------- generation ----------
@@ -416,9 +422,10 @@ func genMain(r *vhlib.Rng, thorough, mixedG bool) *Dataset {
 	q("tc", fmt.Sprintf("* | timechart span=%ds count, sum(d)", ds.SpanS), nil)
 	q("tcby", fmt.Sprintf("* | timechart span=%ds count by k", ds.SpanS), func(x *Query) { x.By = "k" })
 	q("tcby", fmt.Sprintf("* | timechart span=%ds count by g", ds.SpanS), func(x *Query) { x.By = "g" })
-	q("bin", fmt.Sprintf("* | bin span=%ds timestamp | stats count by timestamp", ds.SpanS), nil)
+	q("binal", fmt.Sprintf("* | bin span=%ds timestamp | stats count, sum(d) by timestamp", ds.SpanS), func(x *Query) { x.SpanN, x.SpanU = ds.SpanS, "s" })
 	q("perc", "* | stats perc50(d), perc90(d)", func(x *Query) { x.Field = "d" })
 	addCutQueries(r, ds)
+	addMainBinAlign(r, ds)
 	if mixedG {
 		for i := range ds.Queries {
 			if ds.Queries[i].Kind == "group" || ds.Queries[i].Kind == "tcby" {
@@ -1165,7 +1172,7 @@ func (c *checker) evalQuery(o WObs) {
 	c.mu.Unlock()
 	if o.Err != "" {
 		cls := "stats_query_fails"
-		if q.Kind == "group" || q.Kind == "tcby" || q.Kind == "tc" || q.Kind == "bin" {
+		if q.Kind == "group" || q.Kind == "tcby" || q.Kind == "tc" || q.Kind == "binal" {
 			cls = "stats_fails_on_sparse_group_field"
 		}
 		c.fail(cls, "query returned an error: "+o.Err)
@@ -1181,8 +1188,8 @@ func (c *checker) evalQuery(o WObs) {
 		c.evalTimechart(o, evs)
 	case "tcby":
 		c.evalTimechartBy(o, evs)
-	case "bin":
-		c.evalBin(o, evs)
+	case "binal":
+		c.evalBinAlign(o, evs)
 	case "perc":
 		c.evalPerc(o, evs)
 	}
@@ -1394,6 +1401,13 @@ func parseU(s string) (uint64, bool) {
 
 func (c *checker) evalTimechart(o WObs, evs []Ev) {
 	ds, q := c.ds, c.q
+	if (q.SpanU == "cs" || q.SpanU == "ds") && len(evs) > 0 {
+		// regression of the fixed finding (known/C04.json lists it as fixed: this is a VIOLATION)
+		if old, _, detail := c.tcNanosSignature(o, evs); old {
+			c.fail(tcNanosClass, detail)
+			return
+		}
+	}
 	if q.Expect == "" {
 		total := 0
 		for _, row := range o.Rows {
@@ -1407,7 +1421,7 @@ func (c *checker) evalTimechart(o WObs, evs []Ev) {
 			return
 		}
 	}
-	span := uint64(ds.SpanS) * 1000
+	span := spanMs(ds, q)
 	type agg struct {
 		n   int
 		sum *big.Rat
@@ -1542,47 +1556,6 @@ func (c *checker) evalTimechartBy(o WObs, evs []Ev) {
 				c.fail("timechart_by_value_missing", fmt.Sprintf("bucket %d has no column for %s=%q (%d events)", b, q.By, k, n))
 				return
 			}
-		}
-	}
-}
-
-// bin: the origin of the bucket grid is not part of the property (siglens truncates relative to Go's
-// zero time); required: keys on one grid of width span, every event counted in the bucket whose
-// span contains its timestamp
-func (c *checker) evalBin(o WObs, evs []Ev) {
-	span := uint64(c.ds.SpanS) * 1000
-	var ks []uint64
-	got := map[uint64]int{}
-	for _, row := range o.Rows {
-		b, ok := parseU(strings.Join(row.G, ""))
-		cnt, _ := obsRat(row.M["count(*)"])
-		if _, dup := got[b]; !ok || dup || cnt == nil || !cnt.IsInt() {
-			c.fail("bin_bucket_mismatch", fmt.Sprintf("bin row %v count %v: key unparsable or repeated", row.G, cnt))
-			return
-		}
-		got[b] = int(cnt.Num().Int64())
-		ks = append(ks, b)
-	}
-	sort.Slice(ks, func(i, j int) bool { return ks[i] < ks[j] })
-	for _, k := range ks {
-		if (k-ks[0])%span != 0 {
-			c.fail("bin_bucket_mismatch", fmt.Sprintf("bin keys %d and %d are not on one grid of width %d", ks[0], k, span))
-			return
-		}
-	}
-	want := map[uint64]int{}
-	for _, e := range evs {
-		i := sort.Search(len(ks), func(i int) bool { return ks[i] > e.Ts })
-		if i == 0 || e.Ts-ks[i-1] >= span {
-			c.fail("bin_bucket_mismatch", fmt.Sprintf("no bin bucket contains the event at %d (span %d, keys %v)", e.Ts, span, ks))
-			return
-		}
-		want[ks[i-1]]++
-	}
-	for _, k := range ks {
-		if want[k] != got[k] {
-			c.fail("bin_bucket_mismatch", fmt.Sprintf("bin bucket %d counts %d events, %d have their timestamp in [%d,%d)", k, got[k], want[k], k, k+span))
-			return
 		}
 	}
 }
@@ -1815,7 +1788,7 @@ func coqTimechartCase(ds *Dataset, q Query, o WObs) (string, bool) {
 		}
 		rows = append(rows, fmt.Sprintf("(%d, (%s, %s))", b, coqCount(row, "count(*)"), s))
 	}
-	return fmt.Sprintf("(%d, %d, %d, %s,\n    %s)", q.Start, q.End, uint64(ds.SpanS)*1000, vhlib.CoqList(evs), vhlib.CoqList(rows)), true
+	return fmt.Sprintf("(%d, %d, %d, %s,\n    %s)", q.Start, q.End, spanMs(ds, q), vhlib.CoqList(evs), vhlib.CoqList(rows)), true
 }
 
 // ---------- FindTimeRangeBucket driven directly ----------
@@ -1933,6 +1906,14 @@ func genJobs(r *vhlib.Rng, thorough bool) []*job {
 			jobs = append(jobs, &job{ds: genKnown(r.Fork(), cl)})
 		}
 	}
+	// time bucketing with an origin (bin.go): every span unit, align time before / inside / after the events
+	nBin := 2 * len(binUnits)
+	if thorough {
+		nBin = 25 * len(binUnits)
+	}
+	for i := 0; i < nBin; i++ {
+		jobs = append(jobs, &job{ds: genBin(r.Fork(), thorough, i)})
+	}
 	return jobs
 }
 
@@ -1976,7 +1957,10 @@ func main() {
 	sum := vhlib.NewSummary("one case = one stats / stats-by / timechart / bin query over a generated dataset run by the real code in a worker process " +
 		"(fresh store per dataset; segmentations: one batch, flush every j events, rotate every j events, random mix), or one direct call of FindTimeRangeBucket; " +
 		"non-trivial = the query returned at least one result row (direct call: timestamp inside the range); distinct by (dataset, query text) / by argument tuple; " +
-		"streams: main (kept off the known-defect inputs) and one stream per known defect class; values are small integers and dyadic rationals so that float sums are exact")
+		"streams: main (kept off the known-defect inputs), one stream per known defect class, and bin_origin (bin.go): per span unit ms/cs/ds/s/m/h/d/w a dataset built around an align time " +
+		"(events a whole number of spans, +-1 ms, and random offsets before and after it; align time inside / after / before the data, near 1970, far future) queried with " +
+		"`bin span= aligntime= | stats count, sum(d) by`, the same without aligntime, with a filter, with a cut range, and `timechart span=<n><unit>`; " +
+		"plus direct calls of both copies of performBinWithSpanTime (non-trivial = timestamp before the align time); values are small integers and dyadic rationals so that float sums are exact")
 	r := vhlib.NewRng(cfg.Seed)
 	nBucket := 4000
 	if cfg.Thorough() {
@@ -2004,7 +1988,7 @@ func main() {
 	wg.Wait()
 
 	var mu sync.Mutex
-	var sCases, gCases, tCases []string
+	var sCases, gCases, tCases, bCases, uCases []string
 	shard := 0
 	flush := func(force bool) {
 		if len(sCases) >= 60 || (force && len(sCases) > 0) {
@@ -2023,6 +2007,18 @@ func main() {
 			defs := "Open Scope Z_scope.\nDefinition cases : list (Z * Z * Z * list (Z * Z) * list (Z * (Z * Z))) := " + vhlib.CoqListNL(tCases) + ".\n"
 			sum.WriteCaseFile(cfg.Out, fmt.Sprintf("cases_c04_tc_%d", shard), "From SigM Require Import Base Agg Bucket AggCheck.\n", defs, "check_timecharts cases 0", len(tCases))
 			tCases = nil
+			shard++
+		}
+		if len(bCases) >= 80 || (force && len(bCases) > 0) {
+			defs := "Open Scope Z_scope.\nDefinition cases : list (tunit * Z * option Z * list (Z * Z) * list (Z * (Z * Z))) := " + vhlib.CoqListNL(bCases) + ".\n"
+			sum.WriteCaseFile(cfg.Out, fmt.Sprintf("cases_c04_bin_%d", shard), "From SigM Require Import Base Agg Bucket AggCheck.\n", defs, "check_bins cases 0", len(bCases))
+			bCases = nil
+			shard++
+		}
+		if len(uCases) >= 80 || (force && len(uCases) > 0) {
+			defs := "Open Scope Z_scope.\nDefinition cases : list (Z * Z * tunit * Z * list (Z * Z) * list (Z * (Z * Z))) := " + vhlib.CoqListNL(uCases) + ".\n"
+			sum.WriteCaseFile(cfg.Out, fmt.Sprintf("cases_c04_tcunit_%d", shard), "From SigM Require Import Base Agg Bucket AggCheck.\n", defs, "check_timecharts_u cases 0", len(uCases))
+			uCases = nil
 			shard++
 		}
 	}
@@ -2053,8 +2049,18 @@ func main() {
 					gCases = append(gCases, s)
 				}
 			case "tc":
+				if q.SpanN > 0 {
+					if s, ok := coqTimechartUnitCase(j.ds, q, j.obs[qi]); ok {
+						uCases = append(uCases, s)
+					}
+					break
+				}
 				if s, ok := coqTimechartCase(j.ds, q, j.obs[qi]); ok {
 					tCases = append(tCases, s)
+				}
+			case "binal":
+				if s, ok := coqBinCase(j.ds, q, j.obs[qi]); ok {
+					bCases = append(bCases, s)
 				}
 			}
 			flush(false)
@@ -2066,6 +2072,7 @@ func main() {
 	}
 	flush(true)
 	bucketCases(r.Fork(), sum, cfg.Out, nBucket)
+	binCalls(r.Fork(), sum, cfg.Out, nBucket)
 	sum.Notes = append(sum.Notes,
 		"float64 values are dyadic rationals with 10 fractional bits and small magnitude: sums are exact; avg compared with relative tolerance 1e-12 (oracle) / 2^-40 (Coq)",
 		"dc: exact below 50 distinct values, 2 % above (HLL log2m=16, observed only); skipped when a number occurs in two forms or next to non-numeric strings (count dc_unchecked_mixed_forms)",
